@@ -42,4 +42,82 @@ theorem useAfterCall_reported (g : Cfg) (i j : Nat) (hi : i < g.nodes.size) (f :
   · show (lintDiag "InvalidUseAfterCall" w.tok.range w.tok.file w.tok.text []).code = "invalid-use-after-call"
     exact code_of "InvalidUseAfterCall" "invalid-use-after-call" _ _ _ _ (by decide)
 
+/-! ### a saved register (or sp / ra) that is modified and not restored -/
+
+theorem firstStore_go_acc (g : Cfg) (item : Reg) (fuel : Nat) :
+    ∀ (queue visited : List Nat) (acc : List (W Reg)) (x : W Reg), x ∈ acc →
+      x ∈ firstStore.go g item fuel queue visited acc := by
+  induction fuel with
+  | zero => intro q v acc x hx; simpa [firstStore.go] using hx
+  | succ n ih =>
+    intro q v acc x hx
+    unfold firstStore.go
+    cases q with
+    | nil => exact hx
+    | cons p rest =>
+      simp only []
+      split
+      · exact ih _ _ _ x hx
+      · split
+        · split
+          · exact ih _ _ _ x (List.mem_append_left _ hx)
+          · exact ih _ _ _ x hx
+        · exact ih _ _ _ x hx
+
+/-- **overwritten callee-saved register is reported** on the instruction that wrote it, when that
+    instruction directly precedes the function's exit: for every function (visited through one of
+    its labels) and every callee-saved register - a saved register, sp or ra - that does not hold
+    its entry value at the exit. -/
+theorem overwriteCalleeSaved_reported (g : Cfg) (lf : String × Nat) (hlf : lf ∈ g.labelFunc) (f : Func)
+    (hf : g.funcOfEntry lf.2 = some f) (r : Reg) (hr : r ∈ RegSet.toList calleeSavedSet)
+    (hno : isOriginal (g.get f.exit).regIn r = false)
+    (p : Nat) (rest : List Nat) (hp : (g.get f.exit).prevs = p :: rest) (hpe : p ≠ f.exit)
+    (rd : W Reg) (hw : (g.get p).node.writesTo = some rd) (hrd : rd.val = r) :
+    ∃ x ∈ lintCalleeSaved g, x.code = "overwrite-callee-saved-register" ∧ x.range = rd.tok.range ∧
+      x.file = rd.tok.file := by
+  refine ⟨onReg "OverwriteCalleeSavedRegister" rd, ?_, code_of _ _ _ _ _ _ (by decide), rfl, rfl⟩
+  unfold lintCalleeSaved
+  rw [List.mem_flatMap]
+  refine ⟨lf, by simpa using hlf, ?_⟩
+  unfold calleeSavedAt
+  rw [hf]
+  simp only [List.mem_flatMap]
+  refine ⟨r, hr, ?_⟩
+  simp only [hno, Bool.false_eq_true, if_false, List.mem_map]
+  refine ⟨rd, ?_, rfl⟩
+  unfold firstStore
+  rw [hp]
+  generalize 4 * (g.nodes.size + 1) * (g.nodes.size + 1) + 7 = fuel
+  have e : 4 * (g.nodes.size + 1) * (g.nodes.size + 1) + 8 = (4 * (g.nodes.size + 1) * (g.nodes.size + 1) + 7) + 1 := by omega
+  rw [e]
+  unfold firstStore.go
+  have hv : ([f.exit] : List Nat).contains p = false := by simpa using hpe
+  simp only [hv, Bool.false_eq_true, if_false, hw, hrd, beq_self_eq_true, if_true]
+  exact firstStore_go_acc g r _ _ _ _ rd (by simp)
+
+/-! ### a register that was never assigned -/
+
+/-- **read of a never-assigned register is reported** on the operand, when the read is the first
+    instruction of the program: the register is live into the program entry and is not one of the
+    program's own arguments. -/
+theorem neverAssigned_reported (g : Cfg) (i j : Nat) (hi : i < g.nodes.size)
+    (hpe : (g.get i).node.isProgramEntry = true) (r : Reg) (w : W Reg)
+    (hn : (g.get i).nexts = [j]) (hj : j ≠ i)
+    (hgen : RegSet.mem (g.get j).node.genReg r = true)
+    (hread : (readsSet (g.get j).node).find? (·.val == r) = some w)
+    (hlive : r ∈ RegSet.toList (RegSet.diff (g.get i).liveIn programArgsSet)) :
+    ∃ x ∈ lintGarbageInput g, x.code = "invalid-use-before-assignment" ∧ x.range = w.tok.range ∧
+      x.file = w.tok.file := by
+  refine ⟨onReg "InvalidUseBeforeAssignment" w, ?_, code_of _ _ _ _ _ _ (by decide), rfl, rfl⟩
+  unfold lintGarbageInput
+  rw [List.mem_flatMap]
+  refine ⟨i, range_mem _ _ hi, ?_⟩
+  simp only [garbageAt, hpe, if_true]
+  unfold usageDiags
+  rw [List.mem_flatMap]
+  refine ⟨r, hlive, ?_⟩
+  unfold usageDiag
+  rw [firstUsage_next g i j r hn hj hgen, hread]
+  simp
+
 end Rva
